@@ -280,6 +280,9 @@ RICH_FORMS = [
     # conditions made by AND / OR over cells and areas that may hold blanks: a blank cell has no truth value
     'IF(AND(K5:L7),"all","not")', 'IF(OR(K5:K7),1,2)', 'IF(AND(C1,K5:L6),N1,N2)', 'IFS(AND(K5,L5),"a",OR(K6:L6),"b",TRUE,"c")', 'IF(OR(K5:L5,K7:L7),"some","none")',
     'IF(AND(K5:K7,L5:L7),1)', 'IFERROR(IF(AND(K6:L7),1/C2,"f"),"e")', 'IF(AND(K5,K6,K7),IF(OR(L5:L7),"x","y"),"z")', 'IF(AND(K5:L5),1,0)+IF(OR(K6:L6),10,0)+IF(AND(K7:L7),100,0)',
+    # IFS stops at the first true condition: a later condition - also one that is nothing but a reference to a failing flag cell - is never looked at
+    'IFS(C1,"first",E1,"second")', 'IFERROR(IFS(C1,"first",E1,"second"),"fallback")', 'IFS(C1,"first",E2,"x",TRUE,"y")&"!"', 'IFS(C2>0,N1,E1,N2,TRUE,N3)',
+    'IF(C1,"t",E1)', 'IFS(C1,1,C2,E1,TRUE,3)', 'IFS(K5,"k",E1,"e")',
     # a product too large for a cell is an error value for IFERROR
     'IFERROR(Q1*10,"ovf")', 'IFERROR(Q1*10-Q1*10,"ovf")', 'IFERROR(Q1*Q2,0)', 'IF(IFERROR(Q1*Q2,-1)=-1,"o","f")', 'IFERROR(IFERROR(Q1*Q2,1/0),"both")', 'IFERROR(Q1*Q2*0,"nan")',
     'IFERROR((0-Q1)*Q2,"neg")', 'IFS(IFERROR(Q1*Q2,0)=0,"zero",TRUE,"fine")',
